@@ -583,6 +583,111 @@ class _Loop:
         self.loop.shutdown()
 
 
+def case_coap_overlap(p):
+    """p: sets (k lists of iids), op.  k callers issue their batches on ONE session without waiting for each other (the accessory's answers are
+    on their way until the harness lets them arrive, oldest first): every caller's i-th result is its own i-th characteristic's - the value the
+    accessory holds for THAT id (a function of the id) - and every request the accessory sees is one caller's list, whole and in order."""
+    from cryptography.hazmat.primitives.ciphers.aead import ChaCha20Poly1305
+
+    from aiohomekit.controller.coap.connection import CoAPHomeKitConnection, EncryptionContext
+
+    seed = p.get("seed", 0)
+    sets = [list(x) for x in p["sets"]]
+    out = []
+    from vt import vloop
+
+    loop = vloop.VirtualLoop().install()
+    try:
+        held = []
+
+        class _Held:
+            def __init__(self, resp):
+                self.response = loop.create_future()
+                held.append((self.response, resp))
+
+        val = lambda iid: bytes([iid % 251, (iid >> 8) % 251, 0x5A])  # noqa: E731
+
+        def script(reqs):
+            return [(coappdu.TYPE_RESPONSE, r[2], 0, tlv8.encode([(1, val(r[3]))]) if r[1] == coappdu.OP_CHAR_READ else b"") for r in reqs]
+
+        c2a, a2c = det_bytes(seed, "c17-coap-c2a"), det_bytes(seed, "c17-coap-a2c")
+        acc = _CoapAccessory(coappdu.Session(c2a, a2c), script)
+        orig_request = acc.request
+
+        def request(msg):
+            pend = orig_request(msg)
+            resp = pend.response
+            h = _Held(None)
+            held[-1] = (h.response, resp)
+            return h
+
+        acc.request = request
+        conn = CoAPHomeKitConnection(None, "::1", 5683)
+        conn.info = _coap_db(sorted({i for s_ in sets for i in s_}))
+        conn.enc_ctx = EncryptionContext(ChaCha20Poly1305(a2c), ChaCha20Poly1305(c2a), ChaCha20Poly1305(det_bytes(seed, "c17-coap-ev")), "coap://[::1]:5683/", acc)
+        tasks = []
+        for k, ids in enumerate(sets):
+            if p["op"] == "read":
+                coro = conn.read_characteristics([(1, i) for i in ids])
+            else:
+                coro = conn.write_characteristics([(1, i, val(i)) for i in ids])
+            tasks.append(loop.create_task(coro))
+            for _ in range(p.get("stagger", 0)):
+                if loop.has_ready():
+                    loop.run_batch()
+        for _ in range(20 * len(sets)):
+            loop.run_until_idle()
+            if all(t.done() for t in tasks):
+                break
+            live = [(f, r) for f, r in held if not f.done()]
+            if live:
+                f, r = live[0]
+                coro_or_resp = r
+                if hasattr(coro_or_resp, "send"):
+                    try:
+                        coro_or_resp.send(None)
+                    except StopIteration as si:
+                        coro_or_resp = si.value
+                f.set_result(coro_or_resp)
+            elif not loop.fire_next_timer():
+                break
+        det = {"sets": sets, "op": p["op"], "stagger": p.get("stagger", 0)}
+        out += [(s_, {**det, **d}) for s_, d in acc.problems]
+        for reqs in acc.requests:
+            got = [r[3] for r in reqs]
+            if got not in sets:
+                out.append(("coap:overlap:request-on-the-wire-is-no-callers-list", dict(det, got=got)))
+            for r in reqs:
+                if p["op"] == "write" and r[4] != tlv8.encode([(1, val(r[3]))]):
+                    out.append(("coap:write-carries-another-characteristics-value", dict(det, iid=r[3])))
+        if sorted(tuple(r[3] for r in q) for q in acc.requests) != sorted(tuple(x) for x in sets):
+            out.append(("coap:overlap:requests-on-the-wire-are-not-one-per-call", dict(det, got=[[r[3] for r in q] for q in acc.requests])))
+        for k, (t, ids) in enumerate(zip(tasks, sets)):
+            if not t.done():
+                out.append(("coap:overlap:caller-never-completes", dict(det, caller=k)))
+                t.cancel()
+                continue
+            if t.cancelled() or t.exception() is not None:
+                out.append((f"coap:overlap:caller-fails:{type(t.exception()).__name__ if not t.cancelled() else 'cancelled'}", dict(det, caller=k, err=str(t.exception())[:160] if not t.cancelled() else "")))
+                continue
+            res = t.result()
+            if p["op"] == "read":
+                for i in ids:
+                    got = res.get((1, i)) if isinstance(res, dict) else None
+                    gv = got.get("value") if isinstance(got, dict) else None
+                    if got is None:
+                        out.append(("coap:overlap:result-misses-a-requested-characteristic", dict(det, caller=k, iid=i, keys=[list(x) for x in (res or {})])))
+                    elif gv is not None and bytes(gv if isinstance(gv, (bytes, bytearray)) else str(gv).encode()) != val(i) and gv != val(i):
+                        out.append(("coap:overlap:result-carries-another-characteristics-value", dict(det, caller=k, iid=i, got=repr(gv)[:40], want=val(i))))
+                extra = [x for x in (res or {}) if x[1] not in ids]
+                if extra:
+                    out.append(("coap:overlap:result-holds-characteristics-the-caller-did-not-ask-for", dict(det, caller=k, extra=[list(x) for x in extra])))
+        loop.run_until_idle()
+    finally:
+        loop.shutdown()
+    return out[:4]
+
+
 def case_coap_batch(p):
     with _Loop() as loop:
         return _coap_batch(loop, p)
@@ -787,6 +892,7 @@ CASES = {
     "ble_response": case_ble_response,
     "coap_decode": case_coap_decode,
     "coap_batch": case_coap_batch,
+    "coap_overlap": case_coap_overlap,
 }
 
 
@@ -1033,6 +1139,15 @@ def run(ctx):
                 bat.append({"vec": vec, "lens": "A", "wt": "next", "wc": 0, "seed": seed, "op": op, "prior": prior})
                 if n > 1:
                     bat.append({"vec": ["ok:n"] * (n - 1) + ["err:4"], "lens": "A", "wt": "next", "wc": 0, "seed": seed, "op": op, "prior": prior})
+    # overlapping callers on one session: 2..4 batches issued without waiting for each other
+    pool = [[700, 3, 12], [256, 9, 65535], [1000, 1007, 1014], [3], [9, 700], [1021, 1028, 1035, 1042]]
+    ov = []
+    for k in (2, 3, 4) if not quick else (2, 3):
+        for combo in itertools.permutations(range(len(pool)), k) if not quick else itertools.combinations(range(len(pool)), k):
+            for op in ("read", "write"):
+                for stagger in (0, 1, 2, 5) if not quick else (0, 2):
+                    ov.append({"sets": [pool[i] for i in combo], "op": op, "stagger": stagger, "vec": [], "lens": "A"})
+    work += _chunks("coap_overlap", ov, 40)
     work += _chunks("coap_decode", dec, 1500)
     work += _chunks("coap_batch", [b for b in bat if b.get("prior")], 12)
     work += _chunks("coap_batch", [b for b in bat if not b.get("prior")], 500)
